@@ -787,6 +787,12 @@ type Decoder struct {
 // it returns the *Decoder for convenience of notation.
 func (d *Decoder) initBuffer() *Decoder {
 	d.b = bufio.NewReaderSize(d.rd, d.initialBufSize)
+	if rd, ok := d.rd.(*bufio.Reader); ok && rd == d.b {
+		// bufio hands back a large enough *bufio.Reader as is, but peek
+		// relies on the buffered reader and its source being distinct
+		// (it re-reads what it peeked from a fresh reader over the source)
+		d.b = bufio.NewReaderSize(struct{ io.Reader }{d.rd}, d.initialBufSize)
+	}
 	return d
 }
 
